@@ -63,26 +63,34 @@ def confirm_one(d):
 
 
 def run_one(d, props):
+    """checks run against a scratch worktree of /repo with the patch applied (MTFIT_REPO), so /repo itself stays untouched and
+    ordinary runs can go on in parallel; evidence and replays of these runs go to a scratch directory"""
     d = os.path.abspath(d)
     meta = json.load(open(os.path.join(d, 'meta.json')))
     props = props or [meta['property']]
-    assert sh(['git', '-C', REPO, 'status', '--porcelain']).stdout.strip() == '', '/repo is not clean'
-    r = sh(['git', '-C', REPO, 'apply', os.path.join(d, 'patch.diff')])
+    wt = tempfile.mkdtemp(prefix='seedrun_', dir='/tmp')
+    os.rmdir(wt)
+    scratch = tempfile.mkdtemp(prefix='seedout_', dir='/tmp')
     out = {'property': meta['property'], 'checks': {}}
     try:
+        r = sh(['git', '-C', REPO, 'worktree', 'add', '--detach', wt, 'HEAD'])
+        assert r.returncode == 0, r.stdout
+        r = sh(['git', '-C', wt, 'apply', os.path.join(d, 'patch.diff')])
         if r.returncode != 0:
             out['error'] = 'patch does not apply: ' + r.stdout[-200:]
         else:
+            env = dict(os.environ, MTFIT_REPO=wt, VERIF_SCRATCH_OUT=scratch)
             for p in props:
                 t0 = time.time()
-                c = sh([os.path.join(VERIF, 'check'), p, '--tier', 'quick'], cwd=VERIF, timeout=3600)
+                c = sh([os.path.join(VERIF, 'check'), p, '--tier', 'quick'], cwd=VERIF, timeout=3600, env=env)
                 lines = c.stdout.splitlines()
                 vio = [l for l in lines if l.startswith('VIOLATION')]
                 out['checks'][p] = {'exit': c.returncode, 'violation': vio[0] if vio else None, 'wall_s': round(time.time() - t0),
-                                    'eg': [l.strip() for l in lines if l.strip().startswith('e.g.') or l.strip().startswith('lean:')][:3]}
+                                    'eg': [l.strip()[:300] for l in lines if l.strip().startswith('e.g.') or l.strip().startswith('lean:')][:3]}
     finally:
-        sh(['git', '-C', REPO, 'checkout', '--', '.'])
-    assert sh(['git', '-C', REPO, 'status', '--porcelain']).stdout.strip() == ''
+        sh(['git', '-C', REPO, 'worktree', 'remove', '--force', wt])
+        shutil.rmtree(wt, ignore_errors=True)
+        shutil.rmtree(scratch, ignore_errors=True)
     prev = {}
     rp = os.path.join(d, 'result.json')
     if os.path.exists(rp):
